@@ -398,18 +398,32 @@ var quickPairs = [][]int{
 	{opEmptyAdd, opCompactAll},
 }
 
-func pickPair() []int {
+// pickPair returns an operation pair and the context bound to explore it with:
+// quick: the listed pairs with <= 2 preemptions; thorough: the listed pairs with
+// <= 3 preemptions and every pair of the 11 operations with <= 2.
+func pickPair(extraPre int) ([]int, int) {
 	if VerifTier() == 0 {
-		return quickPairs[VerifChoose(len(quickPairs))]
+		return quickPairs[VerifChoose(len(quickPairs))], 2 + extraPre
 	}
-	return []int{VerifChoose(nOps), VerifChoose(nOps)}
+	if VerifChoose(2) == 0 {
+		return quickPairs[VerifChoose(len(quickPairs))], 3 + extraPre
+	}
+	return []int{VerifChoose(nOps), VerifChoose(nOps)}, 2
 }
 
 // Harness_C04_pairs: two processes, one operation each: no lost, altered or phantom update; Add succeeds iff committed; only lock failures.
-// bounds: 2 processes (own handles, opened before either runs); operation pairs: Add/Add, CompactAll/Add, CompactAll/Add+auto-compaction, compactRange(0,1)/CompactAll, Add/Clean, CompactAll/reload, Add/Close, Add/open+Add, open+Add/open+Add, CompactAll/open+Add, compactRange(top two)/CompactAll (open+Add: the handle is opened inside the process, so it may be fresh or stale) two-table Addition/open+Add, empty Add/CompactAll (thorough: all 121 pairs of the 11 operations); transaction payload byte arbitrary (symbolic); initial stack of 3 tables; every schedule with <= 2 preemptions at visible filesystem steps (thorough 3); sha1 (thorough: sha256 too)
+// bounds: 2 processes (own handles, opened before either runs); operation pairs: Add/Add, CompactAll/Add, CompactAll/Add+auto-compaction, compactRange(0,1)/CompactAll, Add/Clean, CompactAll/reload, Add/Close, Add/open+Add, open+Add/open+Add, CompactAll/open+Add, compactRange(top two)/CompactAll (open+Add: the handle is opened inside the process, so it may be fresh or stale) two-table Addition/open+Add, empty Add/CompactAll (thorough: all 121 pairs of the 11 operations); transaction payload byte arbitrary (symbolic); initial stack of 3 tables; every schedule with <= 2 preemptions at visible filesystem steps (thorough: the listed pairs with <= 3, all 121 pairs with <= 2); sha1
 // covers: done
 func Harness_C04_pairs() {
-	scenario(pickPair(), 3, VerifChoose(1+VerifTier()), 2+VerifTier(), chkFinal|chkErrors)
+	ops, pre := pickPair(0)
+	scenario(ops, 3, 0, pre, chkFinal|chkErrors)
+}
+
+// Harness_C04_sha256_thorough: the listed pairs on a SHA-256 stack.
+// bounds: the quick pairs, <= 2 preemptions, hash sha256
+// covers: done
+func Harness_C04_sha256_thorough() {
+	scenario(quickPairs[VerifChoose(len(quickPairs))], 3, 1, 2, chkFinal|chkErrors)
 }
 
 // Harness_C04_triples: three adders, two of which open their handle late (a lock deleted by a non-owner lets two of them commit over each other).
@@ -430,14 +444,16 @@ func Harness_C04_triples_thorough() {
 // bounds: as Harness_C04_pairs
 // covers: done
 func Harness_C05_pairs() {
-	scenario(pickPair(), 3, 0, 2+VerifTier(), chkOpen|monList)
+	ops, pre := pickPair(0)
+	scenario(ops, 3, 0, pre, chkOpen|monList)
 }
 
 // Harness_C08_pairs: a lock file is created only when absent and removed or renamed only by the process that created it.
-// bounds: as Harness_C04_pairs, with <= 3 preemptions in both tiers
+// bounds: as Harness_C04_pairs, with one more preemption for the listed pairs (quick <= 3, thorough <= 4)
 // covers: done
 func Harness_C08_pairs() {
-	scenario(pickPair(), 3, 0, 3, monLocks)
+	ops, pre := pickPair(1)
+	scenario(ops, 3, 0, pre, monLocks)
 }
 
 // Harness_C08_triples: three contending processes (the loser of a re-acquire race must not delete the winner's lock).
@@ -451,7 +467,8 @@ func Harness_C08_triples() {
 // bounds: as Harness_C04_pairs
 // covers: done
 func Harness_C16_pairs() {
-	scenario(pickPair(), 3, 0, 2+VerifTier(), chkResidue)
+	ops, pre := pickPair(0)
+	scenario(ops, 3, 0, pre, chkResidue)
 }
 
 // ---------- C05: disjoint compactions ----------
